@@ -124,6 +124,8 @@ pub struct Entry {
     /// This entry started on a Pending record (restart path).
     pub restart_path: bool,
     pub restart_wait_done: bool,
+    /// the stored attempt time lay in the future when the restart wait began
+    pub future_attempt: bool,
     /// An RPC of this entry's lifecycle returned an injected error.
     pub rpc_fault_seen: bool,
     pub fault_kinds: Vec<RpcKind>,
@@ -505,6 +507,7 @@ impl Oracles {
                     snap_exact: None,
                     restart_path: false,
                     restart_wait_done: false,
+                    future_attempt: false,
                     rpc_fault_seen: false,
                     fault_kinds: Vec::new(),
                     first_answer: None,
@@ -1166,6 +1169,7 @@ impl Oracles {
         let is_err = !matches!(reply, SimReply::Result(_));
         let mpp_ms = w.cfg.mpp_timeout.saturating_mul(1000);
         let wall_ms = w.wall_ms();
+        let mut future_attempt = false;
         if let Some(e) = self.entries.get_mut(&x) {
             match kind {
                 RpcKind::Fetch if e.fetch_reply.is_none() => {
@@ -1202,6 +1206,10 @@ impl Oracles {
                         e.restart_wait_done = true;
                         e.wait_start_ms = Some(w.now_ms);
                         if let Some(Ok(StoreKind::Pending { secs, .. })) = &e.fetch_reply {
+                            if wall_ms < (*secs as i128) * 1000 {
+                                future_attempt = true;
+                                e.future_attempt = true;
+                            }
                             let age_ms = (wall_ms - (*secs as i128) * 1000).max(0) as u128;
                             let left = (mpp_ms as u128).saturating_sub(age_ms) as u64;
                             e.time_left_ms = Some(left);
@@ -1210,6 +1218,9 @@ impl Oracles {
                 }
                 _ => {}
             }
+        }
+        if future_attempt {
+            self.hit("c11.restart-wait-with-attempt-time-in-the-future");
         }
     }
 
@@ -1694,6 +1705,9 @@ impl Oracles {
                         }
                         if e.restart_path {
                             self.hit("c11.restart-path-timed");
+                            if e.future_attempt {
+                                self.hit("c11.restart-path-timed-with-attempt-time-in-the-future");
+                            }
                             if now > ws.saturating_add(mpp_ms).saturating_add(SLACK_MS) {
                                 self.violate(
                                     w,
